@@ -202,10 +202,7 @@ func (e *Exec) builtinCopy(g *G, dst, src Value) Value {
 		case *Term:
 			xs = e.strToBytes(s).(Slice)
 		case *SymBytes:
-			if s == nil || s.Nil {
-				return tt.BV(64, 0)
-			}
-			return e.copySymBytes(g, e.sliceToSymBytes(d), s)
+			return e.copySymToSlice(g, d, s)
 		}
 		n := len(d)
 		if len(xs) < n {
@@ -225,9 +222,9 @@ func (e *Exec) builtinCopy(g *G, dst, src Value) Value {
 		case *SymBytes:
 			return e.copySymBytes(g, d, s)
 		case Slice:
-			return e.copySymBytes(g, d, e.sliceToSymBytes(s))
+			return e.copySliceToSym(g, d, s)
 		case *Term:
-			return e.copySymBytes(g, d, e.sliceToSymBytes(e.strToBytes(s).(Slice)))
+			return e.copySliceToSym(g, d, e.strToBytes(s).(Slice))
 		}
 	}
 	panic(fmt.Sprintf("copy: %T %T", dst, src))
@@ -408,6 +405,10 @@ func harnessAPI(e *Exec, g *G, fn *ssa.Function, args []Value) (Value, bool) {
 		return nil, true
 	case "atoiStr":
 		return tt.I2BV(64, tt.StrToInt(args[0].(*Term))), true
+	case "nondetBytes":
+		n := args[0].(*Term)
+		m := e.newByteMem(false)
+		return &SymBytes{Mem: m, Off: tt.BV(64, 0), Len: n, Cap: n}, true
 	case "containsSlash":
 		return tt.Contains(args[0].(*Term), tt.Str("/")), true
 	case "containsEq":
